@@ -180,6 +180,9 @@ class SimThreadPool:
         # Python-level call while it is lowered: it parks itself in two C-level lock operations
         # (go.release(); done.acquire()) issued from this very frame.
         extra = getattr(w, "small_stack", None)
+        # fault "crash point": an asynchronous exception at the k-th library line executed on
+        # the worker thread (the tracer is per thread, so it is armed here)
+        crash = getattr(w, "crash", None)
         go, done = threading.Lock(), threading.Lock()
         go.acquire()
         done.acquire()
@@ -195,11 +198,15 @@ class SimThreadPool:
             normal = sys.getrecursionlimit()
             if extra:
                 sys.setrecursionlimit(frame_depth(sys._getframe()) + extra)
+            if crash is not None:
+                sys.settrace(crash.tracer)
             try:
                 f._r = fn(*a, **k)
             except BaseException as e:  # delivered to the caller by result()
                 f._e = e
             finally:
+                if crash is not None:
+                    sys.settrace(None)
                 if extra:
                     sys.setrecursionlimit(normal)
                 if not job["interrupted"]:
